@@ -16,7 +16,7 @@ import (
 func init() {
 	register(&Def{
 		ID:          "C02",
-		Explanation: "The canonical byte form itself (shortest heads, 64-bit floats, definite lengths) is produced by refmt/cbor, outside the repository. What the repository owns is decided structurally: (registered) the encoder registered for 0x71 runs with MapSortMode_RFC7049 and AllowLinks as compile-time constants; (comparator) the less functions used under each sort mode are, over all 7 feasible (length order, byte order) pairs of two keys, exactly 'shorter first, then bytewise' (RFC7049) and 'bytewise' (lexical) - decided by abstract interpretation over that finite order lattice, not by running them; (sortedemit) whenever sorting is on, every key emission is behind the sort call on the very collection that is emitted; (uint) the Kind_Int arms of marshal and EncodedLength probe UintNode; (link) link emission is behind Cid.Defined, writes the tag constant the decoder tests, prefixes exactly the zero byte, and clears Tagged on every path afterwards; (stateless) the encoder keeps no state between calls (fresh token per Marshal, no pools, no package-level writes); (lengthtable, lengthterms) EncodedLength's head-size table equals the CBOR head boundaries and each length-prefixed arm sizes its head for exactly the payload it adds.",
+		Explanation: "The canonical byte form itself (shortest heads, 64-bit floats, definite lengths) is produced by refmt/cbor, outside the repository. What the repository owns is decided structurally: (registered) the encoder registered for 0x71 runs with MapSortMode_RFC7049 and AllowLinks as compile-time constants; (comparator) the less functions used under each sort mode are, over all 7 feasible (length order, byte order) pairs of two keys, exactly 'shorter first, then bytewise' (RFC7049) and 'bytewise' (lexical) - decided by abstract interpretation over that finite order lattice, not by running them; (sortedemit) whenever sorting is on, every key emission is behind the sort call on the very collection that is emitted; (uint) the Kind_Int arms of marshal and EncodedLength probe UintNode; (link) link emission is behind Cid.Defined, writes the tag constant the decoder tests, prefixes exactly the zero byte, and clears Tagged on every path afterwards; (stateless) the encoder keeps no state between calls (fresh token per Marshal, no pools, no package-level writes); (lengthtable, lengthterms) EncodedLength's head-size table equals the CBOR head boundaries and each length-prefixed arm sizes its head for exactly the payload it adds. (uintsame) for every UintNode implementation AsUint applies the user conversions AsInt applies.",
 		NotCovered:  []string{"bytes equal to the canonical form (refmt/cbor)", "decode(encode(v)) == v", "EncodedLength == bytes produced as numbers for containers"},
 		Trusted:     []string{"go/ssa, go/types", "github.com/polydawn/refmt/cbor emits shortest-form heads and 64-bit floats", "sort.Slice sorts by the given less function"},
 		Run:         runC02,
